@@ -53,7 +53,9 @@ def gen_case(rng):
             ops.append(['s', o, wh])
         else:
             ops.append(['t'])
-    return dict(kind=kind, off=off, sz=sz, base=base.hex(), key=pyenv.rbytes(rng, 16).hex(), iv=pyenv.rbytes(rng, 16).hex(), ops=ops)
+    # any keyslot: CBC is the same cipher in all of them (the DSi slots 0-3 only differ for CTR)
+    return dict(kind=kind, off=off, sz=sz, base=base.hex(), key=pyenv.rbytes(rng, 16).hex(), iv=pyenv.rbytes(rng, 16).hex(), ops=ops,
+                slot=rng.choice([0x40, 0x40, 0x00, 0x01, 0x03, 0x04, 0x2C, 0x3D, 0x11]))
 
 
 def run_case(ctx, mr, case):
@@ -63,9 +65,10 @@ def run_case(ctx, mr, case):
     off, sz = case['off'], case['sz']
     bio = LoggedBytesIO(base)
     LoggedBytesIO.writes = 0
-    e = cc.make_engine(key, 0x40)
+    slot = case.get('slot', 0x40)
+    e = cc.make_engine(key, slot)
     under = bio if case['kind'] == 'plain' else SubsectionIO(bio, off, sz)
-    v = e.create_cbc_io(0x40, under, iv)
+    v = e.create_cbc_io(slot, under, iv)
     ct = base[off:off + sz] if case['kind'] == 'window' else base
     plain = AES.new(key, AES.MODE_CBC, iv).decrypt(ct) if ct else b''
 
